@@ -206,6 +206,37 @@ def r4_graceful(ctx):
         r.check(bool(gn) and bool(e1) and bool(e2) and all(p.dominated_by_edges(g, e1) for g in gn), 'idle-close', p.file, 'the idle branch (should_close_on_idle && !has_streams) calls go_away_now(NO_ERROR)')
 
 
+def r4b_shutdown_ping(ctx):
+    r = ctx.rule('C15.R4b', 'PAIR', 'the shutdown PING stays outstanding until its own ack: an ack with another payload leaves pending_ping in place')
+    F = ctx.facts
+    from .. import slots
+    PP = 'proto::ping_pong::PingPong'
+    f = r.fn(PP + '::recv_ping')
+    if not f:
+        return
+    try:
+        exits, parent = slots.loss_scan(F, f, PP, 'pending_ping', lambda fn, bi, t: False)
+    except core.Cap as e:
+        r.bad('shutdown-ping|cap', f.file, str(e))
+        return
+    seen = set()
+    for (bi, (val, owed), rc, st) in exits:
+        taken = owed and val == 'N'
+        seen.add((rc, taken))
+        if rc == 'Shutdown':
+            r.check(taken, 'shutdown-ping|matched-consumes', f.loc(bi), 'ReceivedPing::Shutdown is returned with the pending shutdown PING consumed')
+        else:
+            r.check(not taken, 'shutdown-ping|kept|%s' % rc, f.loc(bi),
+                    'recv_ping exit %s: pending_ping %s' % (rc, 'kept' if not taken else 'DISCARDED although the ack was not for it — the real shutdown ack is then ignored, the final GOAWAY(last_processed_id) is never sent and the connection never closes after draining'),
+                    witness=core.compress_path(f, [x['bb'] for x in core.witness_path(f, parent, bi, st)]))
+    r.check(any(rc == 'Shutdown' for rc, _ in seen), 'shutdown-ping|has-shutdown-exit', f.file, 'recv_ping can return ReceivedPing::Shutdown')
+    r.floor(len(exits), 4, 'recv_ping exit states')
+    # the payload of the shutdown ping is compared before it is consumed for good
+    eq = [bi for bi, t in f.calls(lambda t: t['fn'].rsplit('::', 1)[-1] in ('eq', 'ne'))
+          if any(mentions_field(f.expr_of_op(a), 'proto::ping_pong::PendingPing', 'payload') for a in f.term(bi)['a'])]
+    r.check(bool(eq), 'shutdown-ping|payload-compared', f.file, 'the ack payload is compared with PendingPing.payload')
+
+
 def r5_result(ctx):
     r = ctx.rule('C15.R5', 'TABLE', 'the connection result prefers the peer\'s reason and carries its debug data')
     F = ctx.facts
@@ -249,4 +280,7 @@ def run(ctx):
     r2_recv_goaway(ctx)
     r3_cutoff(ctx)
     r4_graceful(ctx)
+    r4b_shutdown_ping(ctx)
+    from . import C12
+    C12.r6_final_flush(ctx, 'C15.R6')
     r5_result(ctx)
